@@ -3,7 +3,7 @@ CONSTANTS Writers = {w1, w2}
  Datas = {d1, d2}
  XorEncoding = TRUE
  MaxStores = 3
- RereadData = FALSE
+ RereadData = TRUE
 SPECIFICATION Spec
 INVARIANT HitIsAUnit
 CHECK_DEADLOCK FALSE
